@@ -153,6 +153,10 @@ func positionChains(e *core.Env, maxN int, f func(seq []jr.Dir)) {
 		next(jr.P(date, "AAPL", pricesA[depth%len(pricesA)], "USD"), qa, qu)
 		next(jr.P(date, "USD", pricesU[depth%len(pricesU)], "CHF"), qa, qu)
 		next(jr.T(date, "chf", jr.B(accOpening, accChecking, "10", "CHF")), qa, qu)
+		// a transfer between two asset accounts and a second commodity on the receiving one
+		// whose value (100 USD at the initial 0.9) equals the transfer: totals pass through zero
+		next(jr.T(date, "transfer 90 chf", jr.B(accChecking, accCash, "90", "CHF")), qa, qu)
+		next(jr.T(date, "usd on the broker account", jr.B(accOpening, accCash, "100", "USD")), qa, qu)
 	}
 	rec(init, 0, 0, 0)
 }
